@@ -55,3 +55,40 @@ def known_dict(values: Sequence[float], K: Iterable[int]) -> dict[int, Fraction]
 
 def ulp_slack(n: int, scale: float, factor: float = 64.0) -> float:
     return factor * np.finfo(np.float64).eps * max(1, n) * max(scale, 1e-300)
+
+
+# --------------------------------------------------------------------------------------------------
+# long-lived game objects shared between cases (bulk reset to ANOTHER hidden game is part of "any history")
+# --------------------------------------------------------------------------------------------------
+_POOL: dict = {}
+
+
+def object_for_case(ctx, case: dict, comp, key=None, p_reuse: float = 0.5):
+    """Return a real game object for this case.
+
+    With probability p_reuse the object is one that earlier cases (other hidden games, other knowledge sets) already
+    used with the same computer; the case then records those earlier (values, K) pairs under case['prior'] so that a
+    replay can rebuild the same history on a fresh object.  Every case starts with a bulk reset (set_known_values)."""
+    n = case["n"]
+    k = (n, key if key is not None else (comp if isinstance(comp, str) else repr(comp)))
+    if ctx.replay_mode:
+        g = new_game(n, comp)
+        for vals, K in case.get("prior", []):
+            set_knowledge(g, vals, K)
+            try:
+                g.compute_bounds()
+            except AssertionError:
+                pass
+        return g
+    entry = _POOL.get(k)
+    if entry is not None and ctx.rng.random() < p_reuse:
+        g, hist = entry
+        case["prior"] = [(list(v), list(K)) for v, K in hist]
+        ctx.count("cases_on_reused_object")
+    else:
+        g, hist = new_game(n, comp), []
+        _POOL[k] = (g, hist)
+        case["prior"] = []
+    hist.append((list(case["values"]), sorted(case.get("K", []))))
+    del hist[:-3]
+    return g
